@@ -141,7 +141,7 @@ EXPORT int swprintf_s(wchar_t *restrict dest, rsize_t dmax,
     if (destbos == BOS_UNKNOWN) {
         BND_CHK_PTR_BOUNDS(dest, destsz);
     } else {
-        if (unlikely(destsz > destbos)) {
+        if (unlikely(destsz > destbos || destsz / sizeof(wchar_t) != dmax)) {
             invoke_safe_str_constraint_handler("swprintf_s: dmax exceeds dest",
                                                (void *)dest, EOVERFLOW);
             return -(EOVERFLOW);
